@@ -136,6 +136,17 @@ func evaluate(j job, driver string) scenRecord {
 	if o.Spec.IdleMs > 0 {
 		cnt("idle-longer-than-write-timeout")
 	}
+	if o.Spec.PreIdleMs > 0 {
+		cnt("idle-longer-than-every-internal-wait-before-traffic")
+	}
+	for _, c := range o.Conns {
+		if c.Stalled {
+			cnt("collector-stalled")
+			if c.Faulted {
+				cnt("collector-stalled:write-deadline-expired")
+			}
+		}
+	}
 	if o.Spec.ApplyConfigs > 0 {
 		cnt("apply-config-while-sending")
 	}
